@@ -305,6 +305,61 @@ func c03(r *engine.Report, p *engine.Program) {
 	// R6 streams are cancelled only by 'service unknown' about their own peer
 	monitorUnreachableRule(r, p, "R6-no-spurious-cancel")
 	streamTimingRules(r, p)
+	quicConfigRule(r, p)
+}
+
+// quicConfigRule (C03 R9): an idle but healthy stream must survive: both ends configure the same
+// idle timeout (the MaxIdleTimeoutForQuicConnections variable) and the dialling end sends
+// keep-alives at most every half of it (when keep-alives are enabled).
+func quicConfigRule(r *engine.Report, p *engine.Program) {
+	idleG := p.Global("netceptor", "MaxIdleTimeoutForQuicConnections")
+	if idleG == nil {
+		r.Broken("MaxIdleTimeoutForQuicConnections not found")
+		return
+	}
+	isIdle := func(v ssa.Value) bool {
+		u, ok := engine.Unwrap(v).(*ssa.UnOp)
+		return ok && u.Op == token.MUL && u.X == ssa.Value(idleG)
+	}
+	nIdle, badIdle := 0, 0
+	okKeep, nKeep := true, 0
+	p.AllInstrs(func(fn *ssa.Function, in ssa.Instruction) {
+		if engine.IsMock(fn) || !inPkg(fn, "netceptor") {
+			return
+		}
+		st, ok := in.(*ssa.Store)
+		if !ok {
+			return
+		}
+		fa, ok := st.Addr.(*ssa.FieldAddr)
+		if !ok {
+			return
+		}
+		fv := engine.FieldAddrVar(fa)
+		if fv == nil || fv.Pkg() == nil || !strings.HasSuffix(fv.Pkg().Path(), "quic-go") {
+			return
+		}
+		switch fv.Name() {
+		case "MaxIdleTimeout":
+			nIdle++
+			if !isIdle(st.Val) {
+				badIdle++
+			}
+		case "KeepAlivePeriod":
+			nKeep++
+			bo, isB := engine.Unwrap(st.Val).(*ssa.BinOp)
+			k := int64(0)
+			if isB && bo.Op == token.QUO && isIdle(bo.X) {
+				k, _ = engine.ConstInt(bo.Y)
+			}
+			if k < 2 {
+				okKeep = false
+			}
+		}
+	})
+	r.Check("R9-quic-config", "quic.Config: both ends use MaxIdleTimeoutForQuicConnections; keep-alive period is at most half of it", token.NoPos, nIdle >= 2 && badIdle == 0 && nKeep >= 1 && okKeep,
+		fmt.Sprintf("%d MaxIdleTimeout settings, all the shared variable; %d KeepAlivePeriod setting(s) = that variable / k with k >= 2", nIdle, nKeep),
+		fmt.Sprintf("MaxIdleTimeout settings: %d (%d not the shared variable); KeepAlivePeriod settings: %d, at most half of the idle timeout: %v — an idle but healthy stream is closed by the idle timer", nIdle, badIdle, nKeep, okKeep))
 }
 
 // streamTimingRules (C03 R8): receptor adds no time limits of its own under a stream. quic-go treats
